@@ -42,7 +42,9 @@ RH_ASSUMES = A_HOOK + [A_FCLR,
     'htp_gzip_decompressor_create replaced by a counting stub: NULL at any time (C18), else the next element of a static pool, unlinked and without sink, only for gzip/deflate/lzma (enforced on the real factory by c07_create)',
     'htp_tx_res_destroy_decompressors replaced by a logging stub that clears the chain head (real function: lemma c06_res_destroy_decompressors)',
     'response_decompression_layer_limit >= 0 (a negative limit is meaningless; with it the single-coding fast path still creates one layer)']
-UNITS.append(U(name='htp_tx_state_response_headers', props=['C05', 'C07', 'C18', 'C01'], kind='contract', src=['htp_transaction.c'],
+# kind='bounded': the contract is enforced by dfcc, but the Content-Encoding tokenizer loop is UNWOUND over a truncated header value (<= C06_CE_CAP bytes), not closed by an invariant:
+# per DESIGN 2.4 that is 'per-call contract, bounded' and is reported under bounded_units, never counted as proved
+UNITS.append(U(name='htp_tx_state_response_headers', props=['C05', 'C07', 'C18', 'C01'], kind='bounded', src=['htp_transaction.c'],
                enforce='htp_tx_state_response_headers', contract='contract_c06_tx_state_response_headers', replace=RH_REPLACE, contracts_inc=INC,
                harness='c06_val_t nondet_c06_val(void);\nvoid HARNESS(void) { htp_tx_t *t; c06_val = nondet_c06_val(); htp_tx_state_response_headers(t); CANARY(); }',
                defs={'quick': {'C06_CE_CAP': 8, 'C06_POOL': 5}, 'thorough': {'C06_CE_CAP': 8, 'C06_POOL': 5}},
